@@ -33,6 +33,13 @@ def main(tier):
         o0, f0 = pairs.initial(sc, rng)
         getL, getx = pairs.flow_pair(sc["flow"], rate=1.0)
         getLk, getxk = pairs.flow_pair(sc["flow"], rate=k)
+        single = len(ks) % 4 == 3 or (sc["fab"] == "EN" and k < 1e-10)
+        if single:
+            # the client's callable returns a SINGLE-precision velocity gradient (a field read from a float32 file); the
+            # relation is judged within solver tolerance, far above single precision
+            getL = (lambda g: (lambda t, x: np.asarray(g(t, x)).astype(np.float32)))(getL)
+            getLk = (lambda g: (lambda t, x: np.asarray(g(t, x)).astype(np.float32)))(getLk)
+            chk.cov["single_precision_gradient_pairs"] = chk.cov.get("single_precision_gradient_pairs", 0) + 1
         try:
             r1 = pairs.run_member(pd, sc, o0, f0, getL, getx, rate=1.0, layout=("C", "view")[len(events) % 2])
             r2 = pairs.run_member(pd, sc, o0, f0, getLk, getxk, rate=k)
